@@ -501,6 +501,25 @@ fn text_spellings(v: &Val, canon_text: &str, canon: &[bool]) -> Vec<(String, Str
         let t = canon_text.replacen(": ", ": 1 + ", 1);
         out.push(("expr-in-field".into(), t, Expect::May(vec![])));
     }
+    // an array repeat whose size is the name of a constant is no literal
+    if let Val::Arr(es) = v {
+        if let Some(first) = es.first() {
+            if let Ok(t) = catch(|| to_literal(first).to_string()) {
+                out.push(("array-repeat-with-constant-name-as-size".into(), format!("[{t}; nq]"), Expect::MustErr));
+            }
+        }
+    }
+    // decimal numbers beyond i64: for a signed type they must be refused (never wrapped around)
+    if let Val::Int(x, t) = v {
+        if t.signed() {
+            out.push(("unsigned-decimal-2^64-1".into(), "18446744073709551615".to_string(), Expect::MustErr));
+            out.push(("unsigned-decimal-2^63".into(), "9223372036854775808".to_string(), Expect::MustErr));
+            if *x < 0 {
+                // the two's complement of the value, written as a 64-bit unsigned decimal
+                out.push(("wrapped-negative".into(), ((1i128 << 64) + *x).to_string(), Expect::MustErr));
+            }
+        }
+    }
     // enum variants: a surplus field, fields given to a unit variant
     if let Val::Enum(_, _, payload) = v {
         match payload {
@@ -575,6 +594,7 @@ fn check_type(ty: &Ty, tier: Tier, cnt: &Cnt, coll: &Collector) {
         ConstDef { name: "b".into(), ty: Ty::u8(), value: Val::u8(1) },
         ConstDef { name: "m".into(), ty: Ty::Int(IntTy::I8), value: Val::Int(-1, IntTy::I8) },
         ConstDef { name: "z".into(), ty: Ty::u8(), value: Val::u8(2) },
+        ConstDef { name: "nq".into(), ty: Ty::Int(IntTy::Usize), value: Val::Int(2, IntTy::Usize) },
     ];
     let n_ids = prog.assign_ids();
     let text = print_program(&prog, n_ids).text;
